@@ -31,9 +31,9 @@ _insitu = {"ctx": None, "on": False}
 
 def floors(tier):
     q = tier == "quick"
-    return {"v": 20000 if q else 1000000, "w": 20000 if q else 1000000, "vt": 20000 if q else 1000000,
-            "wt": 20000 if q else 1000000, "phi": 20000 if q else 1000000, "threshold-neighbourhood": 2000 if q else 50000,
-            "in-situ": 5000 if q else 100000}
+    return {"v": 20000 if q else 2000000, "w": 20000 if q else 2000000, "vt": 20000 if q else 2000000,
+            "wt": 20000 if q else 2000000, "phi": 20000 if q else 2000000, "threshold-neighbourhood": 2000 if q else 100000,
+            "in-situ": 5000 if q else 200000}
 
 
 def setup(ctx):
@@ -82,7 +82,7 @@ def _around(rng, x0, ulps=64):
 
 
 def generate(ctx):
-    n = ctx.budget(42000, 1600000)
+    n = ctx.budget(42000, 3200000)
     rng = ctx.rng
     # thresholds are located by bisection on the exact functions, which is expensive: threshold neighbourhoods use a
     # per-shard pool of t values (fresh per shard and seed), all other points draw t freely
@@ -116,7 +116,7 @@ def generate(ctx):
         y = rng.uniform(-37.5, 38) if r < 0.6 else (rng.uniform(-37.5, -30) if r < 0.8 else rng.uniform(-9, -4))
         yield "pt", dict(x=x, t=t, y=y, near=near)
     # in-situ: TM games under the attached contracts
-    ng = ctx.budget(1500, 40000)
+    ng = ctx.budget(1500, 80000)
     for _ in range(ng):
         cfg = gen.gen_cfg(rng, kappas=(1e-6, 1e-4, 1e-4, 1e-3, 1e-2))
         case, meta = gen.gen_case(rng, model=rng.choice(["ThurstoneMostellerFull", "ThurstoneMostellerPart"]), cfg=cfg,
